@@ -36,6 +36,19 @@ def build(cfg):
             a = np.array(IRREG[d]) + 10.0 * (k + 1)
             axes.append(a if inc[k] else a[::-1])
         return fm.RectilinearGrid(axes, order=order, axes_reversed=rev, data_location=loc)
+    if cls == "rect_shared":
+        # a square/cubic domain described by ONE coordinate array handed in for every axis (all axes in the same direction)
+        a = np.array(IRREG[dims[0]]) + 10.0
+        a = a if inc[0] else a[::-1].copy()
+        return fm.RectilinearGrid([a] * len(dims), order=order, axes_reversed=rev, data_location=loc)
+    if cls == "rect_again":
+        # the caller's coordinate arrays are used for two grids in a row; the second one is judged
+        axes = []
+        for k, d in enumerate(dims):
+            a = np.array(IRREG[d]) + 10.0 * (k + 1)
+            axes.append(a if inc[k] else a[::-1].copy())
+        fm.RectilinearGrid(axes, order="F" if order == "C" else "C", axes_reversed=not rev, data_location=loc)
+        return fm.RectilinearGrid(axes, order=order, axes_reversed=rev, data_location=loc)
     if cls == "esri":
         return fm.EsriGrid(ncols=dims[0], nrows=dims[1], cellsize=2.0, xllcorner=3.0, yllcorner=5.0, order=order)
     raise ValueError(cls)
@@ -53,8 +66,10 @@ def ref_axes(cfg):
     if cls == "uniform":
         sp, og = (1.0, 2.0, 0.5), (10.0, 20.0, 30.0)
         return [np.arange(d) * sp[k] + og[k] for k, d in enumerate(dims)]
-    if cls == "rect":
+    if cls in ("rect", "rect_again"):
         return [np.array(IRREG[d]) + 10.0 * (k + 1) for k, d in enumerate(dims)]
+    if cls == "rect_shared":
+        return [np.array(IRREG[d]) + 10.0 for d in dims]
     if cls == "esri":
         return [3.0 + 2.0 * np.arange(dims[0] + 1), 5.0 + 2.0 * np.arange(dims[1] + 1)]
 
@@ -147,7 +162,7 @@ def check_geometry(cfg):
     return bad
 
 
-OPS = ["shape", "size", "points", "copy", "deepcopy", "CELLS", "POINTS"]
+OPS = ["shape", "size", "points", "copy", "deepcopy", "CELLS", "POINTS", "FOO"]
 
 
 def hist_grid(kind):
@@ -161,6 +176,8 @@ def hist_grid(kind):
         return dict(cls="rect", dims=(2, 4), order="C", rev=True, inc=(False, True), loc="POINTS")
     if kind == "unstruct":
         return dict(cls="unstruct", loc="CELLS")
+    if kind == "esri":
+        return dict(cls="esri", dims=(3, 2), order="F", rev=True, inc=(True, False), loc="CELLS")
     raise ValueError(kind)
 
 
@@ -191,8 +208,17 @@ def run_history(kind, seq):
             if len(live) < 3:
                 live.append([g.copy(deep=True), dict(cfg)])
         else:
-            g.data_location = op
-            cfg["loc"] = op
+            # a location the grid cannot take (EsriGrid: cells only; any grid: an unknown name) must be refused AND leave the grid as it was
+            must_fail = op == "FOO" or (cfg["cls"] == "esri" and op == "POINTS")
+            try:
+                g.data_location = op
+                if must_fail:
+                    bad.append(("invalid_location_accepted", step, f"{op} on {cfg['cls']}"))
+                    break
+                cfg["loc"] = op
+            except ValueError:
+                if not must_fail:
+                    raise
         for j, (h, hc) in enumerate(live):
             fresh = build_h(hc)
             for attr in ("data_shape", "data_size", "data_points"):
@@ -266,6 +292,19 @@ def gen_cfgs(tier):
         for n in (2, 3, 4, 6, 7, 12, 13, 24, 29, 48):
             cfgs.append(dict(cls="uniform", dims=(n, 3), order="F", rev=False, inc=(True, False), loc="POINTS", spacing=sp))
             cfgs.append(dict(cls="uniform", dims=(3, n), order="C", rev=True, inc=(True, False), loc="CELLS", spacing=sp))
+    # coordinate arrays shared between the axes of one grid / used for two grids in a row
+    for n in (2, 3):
+        for dim in (2, 3):
+            for order in "FC":
+                for rev in (False, True):
+                    for up in (True, False):
+                        for loc in LOCS:
+                            cfgs.append(dict(cls="rect_shared", dims=(n,) * dim, order=order, rev=rev, inc=(up,) * dim, loc=loc))
+    for dims in ((3,), (2, 3), (3, 2, 2)):
+        for order in "FC":
+            for inc in itertools.product((True, False), repeat=len(dims)):
+                for loc in LOCS:
+                    cfgs.append(dict(cls="rect_again", dims=dims, order=order, rev=False, inc=inc, loc=loc))
     for dims in ((2,), (3,), (2, 3), (3, 2, 2)):
         for loc in LOCS:
             for order in "FC":
@@ -292,7 +331,7 @@ def run(tier, seed, agg):
                 nl = min(3, nlive + 1) if op in ("copy", "deepcopy") else nlive
                 yield from gen(prefix + [(op, k)], nl)
 
-    for kind in ("uniform2", "uniform3r", "rect1", "rect2", "unstruct"):
+    for kind in ("uniform2", "uniform3r", "rect1", "rect2", "unstruct", "esri"):
         if tier == "quick" and kind in ("uniform3r", "rect1"):
             continue
         for seq in gen([], 1):
